@@ -437,11 +437,12 @@ def main(ctx):
         for lo in (0, 2**10 - 64, 2**12 - 64, 3**7 - 64, 5**5 - 64, 7**4 - 64, 2**15 - 64, 2**16 - 64, 173**2 - 64, N_IDX - 512):
             cells.append({"kind": "halton", "nb": 40, "lo": max(0, lo), "hi": max(0, lo) + 400, "sizes": [1, 3], "dense": [1]})
     cells.append({"kind": "primes", "nmax": 200 if ctx.quick else 2000})
-    seeds = list(range(S, S + 50))
-    for i in range(0, 50, 5):
+    nseeds = 50 if ctx.quick else 200
+    seeds = list(range(S, S + nseeds))
+    for i in range(0, nseeds, 5):
         cells.append({"kind": "samplers", "seeds": seeds[i:i + 5], "halton_dims": [(1, False), (2, False), (3, False), (3, True), (10, True), (40, True)] if i == 0 or not ctx.quick else [(1, False), (3, False), (5, True)],
                       "rseq_dims": [1, 2, 3, 10, 40] if i == 0 or not ctx.quick else [1, 2, 7], "phi": i == 0})
-    ctx.bounds = {"halton_indices": f"[0, {N_IDX})", "primes": nb, "batch_sizes": "sizes 1,2 at every end position, 3(,4) aligned; sizes 5,8,61(,16) aligned and at every end position within 12 (32 thorough; 2 for size > 8) of a power of 2, 3 or 5", "sampler_seeds": f"{S}..{S + 49}",
+    ctx.bounds = {"halton_indices": f"[0, {N_IDX})", "primes": nb, "batch_sizes": "sizes 1,2 at every end position, 3(,4) aligned; sizes 5,8,61(,16) aligned and at every end position within 12 (32 thorough; 2 for size > 8) of a power of 2, 3 or 5", "sampler_seeds": f"{S}..{S + nseeds - 1}",
                   "compositions": "all 32 compositions of 6", "dims": "1..3 public path on dyadic grid 2^-17; up to 40 with identity snapping"}
     ctx.rule = ("every index of the range in every listed batch size/alignment; every composition of 6; evaluations = halton()/sampler scenarios judged; "
                 "non-trivial = batch of more than one point / sampler scenario")
